@@ -70,6 +70,14 @@ def form_a(draw):
             pos = draw(st.integers(0, len(out)))
             out_s = "".join(out[:pos]) + "..." + "".join(out[pos:])
         eq += "->" + out_s
+    if draw(st.integers(0, 3)) == 0:
+        # whitespace around terms, commas and the arrow, as numpy tolerates
+        # (the common 'ij, jk -> ik' style)
+        pad = lambda: " " * draw(st.integers(0, 2))  # noqa: E731
+        lhs, *rhs = eq.split("->")
+        eq = ",".join(pad() + t + pad() for t in lhs.split(","))
+        if rhs:
+            eq += pad() + "->" + pad() + rhs[0] + pad()
     return {
         "form": "A",
         "eq": eq,
@@ -83,7 +91,8 @@ def form_a(draw):
 @st.composite
 def form_b(draw):
     nops = draw(st.integers(1, 3))
-    ints = draw(st.lists(st.integers(0, 12), min_size=1, max_size=5, unique=True))
+    # numpy maps the integers 0..51 onto 'a..zA..Z'
+    ints = draw(st.lists(st.one_of(st.integers(0, 12), st.integers(0, 51)), min_size=1, max_size=5, unique=True))
     sizes = {i: draw(st.integers(1, 3)) for i in ints}
     E = draw(st.sampled_from([0, 0, 0, 1, 2]))
     esizes = [draw(st.integers(1, 3)) for _ in range(E)]
@@ -255,7 +264,9 @@ def run_case(spec, sub=None):
             cls.append("implicit_output")
         if len(arrays) == 1:
             cls.append("single_operand")
-        nontrivial = "..." in eq or "->" not in eq
+        if " " in eq:
+            cls.append("whitespace")
+        nontrivial = "..." in eq or "->" not in eq or " " in eq
     elif form == "B":
         arrays = _arrays(spec["shapes"], spec["aseed"])
         args = []
